@@ -59,8 +59,9 @@ def verus_engine(prop, tier, scratch):
         offenders = set()
         for c in cls:
             if c['fn'] and not c['fn'][0].startswith('vs'):
-                offenders.add(c['fn'][1])
-                isolated[c['fn'][1]] = c['msg'][:200]
+                nm = (info.get('copies') or {}).get(c['fn'][1], c['fn'][1])     # an error inside a body copy belongs to its method
+                offenders.add(nm)
+                isolated[nm] = c['msg'][:200]
         contracted = {name for (ln, mod, name, props, ex) in fntab if props is not None}
         new = (offenders & contracted) - skip
         if not new:
@@ -286,6 +287,8 @@ def run_property(prop, tier, seed, scratch, update_baseline=False):
     cur = {o['name']: o.get('expected', 1) for o in obligations}
     if update_baseline:
         base[prop] = cur
+        if v['info'].get('params'):
+            json.dump(v['info']['params'], open(os.path.join(os.path.dirname(BASELINE), 'params.json'), 'w'), indent=0, sort_keys=True)
         json.dump(base, open(BASELINE, 'w'), indent=1, sort_keys=True)
     else:
         want = base.get(prop)
